@@ -459,3 +459,203 @@ Proof.
   exists (rg false T), g'. split; [apply parse_tree_pratt; exact Hpr|]. split; [exact Hg'|].
   rewrite Hs', Hsg', Hsg. reflexivity.
 Qed.
+
+(* ---- brackets around an already bracketed group ---- *)
+Lemma fsim_sym f f' : fsim f f' -> fsim f' f.
+Proof. destruct f, f'; simpl; try tauto; intros H; try (destruct H; split); congruence. Qed.
+Lemma fsim_trans f g h : fsim f g -> fsim g h -> fsim f h.
+Proof. destruct f, g, h; simpl; try tauto; intros H1 H2; try (destruct H1, H2; split); congruence. Qed.
+
+Lemma fsims_sym : forall a b, Forall2 fsim a b -> Forall2 fsim b a.
+Proof. induction 1; constructor; auto using fsim_sym. Qed.
+Lemma fsims_trans : forall a b c, Forall2 fsim a b -> Forall2 fsim b c -> Forall2 fsim a c.
+Proof.
+  intros a b c H. revert c. induction H as [|x y r r' Hx _ IH]; intros c Hc; inversion Hc; subst; constructor;
+    eauto using fsim_trans.
+Qed.
+
+Lemma ssim_sym s s' : ssim s s' -> ssim s' s.
+Proof.
+  intros [H1 H2]. split; [apply fsims_sym; exact H1|].
+  destruct (snd s), (snd s'); simpl in *; auto.
+Qed.
+Lemma ssim_trans s1 s2 s3 : ssim s1 s2 -> ssim s2 s3 -> ssim s1 s3.
+Proof.
+  intros [H1 H2] [H3 H4]. split; [eapply fsims_trans; eauto|].
+  destruct (snd s1), (snd s2), (snd s3); simpl in *; try contradiction; auto. congruence.
+Qed.
+
+Lemma ssim_refl_none fs : ssim (fs, None) (fs, None).
+Proof. split; [apply fsims_refl|exact I]. Qed.
+
+(* frames below an open bracket do not matter to what happens above it *)
+Section Base.
+Variables (bi bk : nat) (br : list frame).
+Let base := FGroup bi bk :: br.
+
+Lemma pop_app_base d : forall fs t fs1 t1, pop d fs t = (fs1, t1) -> pop d (fs ++ base) t = (fs1 ++ base, t1).
+Proof.
+  induction fs as [|f r IH]; intros t fs1 t1 H; cbn [pop app] in *.
+  - injection H as <- <-. reflexivity.
+  - destruct (stays_below d f); [injection H as <- <-; reflexivity|]. apply IH. exact H.
+Qed.
+
+Lemma close_group_app_base : forall fs t fs1 t1, close_group fs t = Some (fs1, t1) ->
+  close_group (fs ++ base) t = Some (fs1 ++ base, t1).
+Proof.
+  induction fs as [|f r IH]; intros t fs1 t1 H; [discriminate|].
+  destruct f; cbn [close_group app] in *; [apply IH; exact H|apply IH; exact H|].
+  injection H as <- <-. reflexivity.
+Qed.
+
+Lemma atom_store_app_base d fs : atom_store d (fs ++ base) = atom_store d fs.
+Proof. unfold atom_store. destruct (definition_eqb d D_Identifier); [|reflexivity]. destruct fs; reflexivity. Qed.
+
+Lemma run_app_base : forall its n fs acc fs1 acc1,
+  spine_run its n (fs, acc) = Some (fs1, acc1) -> spine_run its n (fs ++ base, acc) = Some (fs1 ++ base, acc1).
+Proof.
+  induction its as [|it r IH]; intros n fs acc fs1 acc1 H.
+  - injection H as <- <-. reflexivity.
+  - cbn [spine_run] in *. destruct (spine_step it n (fs, acc)) as [[fs2 acc2]|] eqn:Es; [|discriminate H].
+    assert (Es' : spine_step it n (fs ++ base, acc) = Some (fs2 ++ base, acc2)).
+    { destruct it as [d k|d k|d k|d k|k|k]; destruct acc as [t|]; cbn [spine_step] in *; try discriminate Es.
+      - injection Es as <- <-. rewrite atom_store_app_base. reflexivity.
+      - destruct (ref_rank d); [|discriminate Es]. injection Es as <- <-. reflexivity.
+      - destruct (ref_rank d); [|discriminate Es]. destruct (pop d fs t) as [fs3 t3] eqn:Ep. injection Es as <- <-.
+        rewrite (pop_app_base d _ _ _ _ Ep). reflexivity.
+      - destruct (ref_rank d); [|discriminate Es]. destruct (pop d fs t) as [fs3 t3] eqn:Ep. injection Es as <- <-.
+        rewrite (pop_app_base d _ _ _ _ Ep). reflexivity.
+      - injection Es as <- <-. reflexivity.
+      - destruct (close_group fs t) as [[fs3 t3]|] eqn:Ec; [|discriminate Es]. injection Es as <- <-.
+        rewrite (close_group_app_base _ _ _ _ Ec). reflexivity. }
+    rewrite Es'. apply IH. exact H.
+Qed.
+
+Lemma close_group_nogroup : forall fs t, existsb is_fgroup fs = false ->
+  close_group (fs ++ base) t = Some (br, NGroup bi bk (close fs t)).
+Proof.
+  induction fs as [|f r IH]; intros t H; [reflexivity|]. cbn [existsb] in H. apply orb_false_iff in H. destruct H as [H1 H2].
+  destruct f; try discriminate H1; cbn [app close_group close]; apply IH; exact H2.
+Qed.
+End Base.
+
+(* a closing bracket on a state similar to "frames without brackets above an open bracket" *)
+Lemma close_step_sim fse bi bk br te s c n :
+  existsb is_fgroup fse = false -> ssim (fse ++ FGroup bi bk :: br, Some te) s ->
+  exists s', spine_step (IClose c) n s = Some s' /\ ssim (br, Some (NGroup bi bk (close fse te))) s'.
+Proof.
+  intros Hng Hs.
+  assert (E : spine_step (IClose c) n (fse ++ FGroup bi bk :: br, Some te)
+              = Some (br, Some (NGroup bi bk (close fse te)))).
+  { cbn [spine_step]. rewrite (close_group_nogroup bi bk br fse te Hng). reflexivity. }
+  exact (step_sim (IClose c) (IClose c) n n _ s _ eq_refl Hs E).
+Qed.
+
+Lemma parens_group_machine A Ee E1 E1' B B' j c k1 k2 c1 c2 fse te st T1 :
+  map untok_item Ee = map untok_item E1 -> map untok_item Ee = map untok_item E1' ->
+  map untok_item B = map untok_item B' ->
+  spine_run Ee 0 ([], None) = Some (fse, Some te) -> existsb is_fgroup fse = false ->
+  spine_run (A ++ IOpen j :: E1 ++ IClose c :: B) 0 ([], None) = Some st ->
+  spine_insert (A ++ IOpen j :: E1 ++ IClose c :: B) = Some T1 ->
+  exists T1', spine_insert (A ++ IOpen k1 :: IOpen k2 :: E1' ++ IClose c1 :: IClose c2 :: B') = Some T1' /\
+              sg T1' = sg T1.
+Proof.
+  intros Hu1 Hu1' HuB Hre Hng Hr Hi. pose proof Hr as Hr0. rewrite spine_run_app in Hr.
+  destruct (spine_run A 0 ([], None)) as [[fsA accA]|] eqn:EA; [|discriminate Hr].
+  set (nA := fold_left (fun m it => next_index it m) A 0) in *.
+  cbn [spine_run] in Hr. destruct accA as [tA|]; [discriminate Hr|]. cbn [spine_step next_index] in Hr.
+  rewrite spine_run_app in Hr.
+  (* the group in the original run *)
+  pose proof (run_app_base nA j fsA Ee 0 [] None fse (Some te) Hre) as Tb. cbn [app] in Tb.
+  destruct (run_sim Ee E1 0 (S nA) _ _ _ Hu1 (ssim_refl_none _) Tb) as (s1 & R1 & S1).
+  cbn [fst snd] in *. rewrite R1 in Hr. cbn [spine_run] in Hr.
+  destruct (close_step_sim fse nA j fsA te s1 c (fold_left (fun m it => next_index it m) E1 (S nA)) Hng S1)
+    as (s2 & C2 & S2).
+  rewrite C2 in Hr.
+  (* the same group, twice bracketed *)
+  assert (Hst : exists st', spine_run (A ++ IOpen k1 :: IOpen k2 :: E1' ++ IClose c1 :: IClose c2 :: B') 0 ([], None) = Some st'
+                            /\ ssim st st').
+  { rewrite spine_run_app, EA. fold nA. cbn [spine_run spine_step next_index]. rewrite spine_run_app.
+    pose proof (run_app_base (S nA) k2 (FGroup nA k1 :: fsA) Ee 0 [] None fse (Some te) Hre) as Tb'. cbn [app] in Tb'.
+    destruct (run_sim Ee E1' 0 (S (S nA)) _ _ _ Hu1' (ssim_refl_none _) Tb') as (s1w & R1w & S1w).
+    cbn [fst snd] in *. rewrite R1w. cbn [spine_run].
+    destruct (close_step_sim fse (S nA) k2 (FGroup nA k1 :: fsA) te s1w c1
+                (fold_left (fun m it => next_index it m) E1' (S (S nA))) Hng S1w) as (s2w & C2w & S2w).
+    rewrite C2w. cbn [next_index].
+    destruct (close_step_sim [] nA k1 fsA (NGroup (S nA) k2 (close fse te)) s2w c2
+                (fold_left (fun m it => next_index it m) E1' (S (S nA))) eq_refl S2w) as (s3w & C3w & S3w).
+    rewrite C3w. cbn [next_index close] in *.
+    eapply run_sim; [exact HuB| |exact Hr].
+    eapply ssim_trans; [apply ssim_sym; exact S2|]. eapply ssim_trans; [|exact S3w].
+    split; cbn [fst snd]; [apply fsims_refl|]. reflexivity. }
+  destruct Hst as (st' & Hr' & Hs). exact (insert_sim _ _ T1 st Hr0 Hi st' Hr' Hs).
+Qed.
+
+Lemma lead_close p s :
+  match p with
+  | Some p0 => if s && ends_value_k p0 && starts_value_k KClose then [IBinary D_List None] else []
+  | None => [] end = [].
+Proof. destruct p as [a|]; [|reflexivity]. cbn [starts_value_k]. rewrite andb_false_r. reflexivity. Qed.
+
+Lemma lead_open p s :
+  match p with
+  | Some p0 => if s && ends_value_k p0 && starts_value_k KOpen then [IBinary D_List None] else []
+  | None => [] end = lead_of p s.
+Proof. destruct p as [a|]; [|reflexivity]. cbn [lead_of starts_value_k]. rewrite andb_true_r. reflexivity. Qed.
+
+Lemma items_wrap_group pre e post its :
+  items_of (pre ++ TT_StartGroup :: e ++ TT_EndGroup :: post) 0 None false = Some its ->
+  exists A' Ee E1 E1' B B' j c k2 c1 c2,
+    items_of e 0 None false = Some Ee /\
+    its = A' ++ IOpen j :: E1 ++ IClose c :: B /\
+    items_of (pre ++ TT_StartGroup :: TT_StartGroup :: e ++ TT_EndGroup :: TT_EndGroup :: post) 0 None false
+    = Some (A' ++ IOpen j :: IOpen k2 :: E1' ++ IClose c1 :: IClose c2 :: B') /\
+    map untok_item Ee = map untok_item E1 /\ map untok_item Ee = map untok_item E1' /\
+    map untok_item B = map untok_item B'.
+Proof.
+  intros H. rewrite items_of_app in H. rewrite items_of_app.
+  destruct (items_of pre 0 None false) as [A|]; [|discriminate H].
+  destruct (end_state None false pre) as [p s]. cbn [fst snd plus] in *.
+  set (jp := length pre) in *.
+  cbn [items_of ref_kind] in H |- *. rewrite lead_open in H. rewrite lead_open.
+  cbn [andb app ends_value_k] in *.
+  rewrite items_of_app in H. rewrite (items_of_app e (TT_EndGroup :: TT_EndGroup :: post)).
+  (* the items of [e] in its three settings *)
+  pose proof (items_of_index e (S jp) 0 (Some KOpen) false) as X1. rewrite (items_of_after_open e 0 false) in X1.
+  pose proof (items_of_index e (S (S jp)) 0 (Some KOpen) false) as X2. rewrite (items_of_after_open e 0 false) in X2.
+  destruct (items_of e (S jp) (Some KOpen) false) as [E1|]; [|destruct p; discriminate H].
+  destruct (items_of e 0 None false) as [Ee|]; [|discriminate X1].
+  destruct (items_of e (S (S jp)) (Some KOpen) false) as [E1'|]; [|discriminate X2].
+  cbn [oitems option_map] in X1, X2. injection X1 as X1. injection X2 as X2.
+  destruct (end_state (Some KOpen) false e) as [pe se]. cbn [fst snd] in *.
+  cbn [items_of ref_kind] in H |- *. rewrite !lead_close in *. cbn [andb app] in *.
+  pose proof (items_of_index post (S (S jp + length e)) (S (S (S (S jp) + length e))) (Some KClose) false) as XB.
+  destruct (items_of post (S (S jp + length e)) (Some KClose) false) as [B|]; [|destruct p; discriminate H].
+  destruct (items_of post (S (S (S (S jp) + length e))) (Some KClose) false) as [B'|]; [|discriminate XB].
+  cbn [oitems option_map] in XB. injection XB as XB.
+  cbn [option_map] in H |- *. injection H as <-.
+  exists (A ++ lead_of p s), Ee, E1, E1', B, B', jp, (S jp + length e), (S jp), (S (S jp) + length e), (S (S (S jp) + length e)).
+  split; [reflexivity|]. split; [rewrite <- !app_assoc; reflexivity|]. split; [|auto].
+  f_equal. rewrite <- !app_assoc. reflexivity.
+Qed.
+
+Theorem parens_group (pre e post : list token_type) (T Te : rtree) :
+  pratt (pre ++ TT_StartGroup :: e ++ TT_EndGroup :: post) = Some T -> pratt e = Some Te ->
+  exists g g', parse_tree (pre ++ TT_StartGroup :: e ++ TT_EndGroup :: post) = Some g /\
+               parse_tree (pre ++ TT_StartGroup :: TT_StartGroup :: e ++ TT_EndGroup :: TT_EndGroup :: post) = Some g' /\
+               strip_groups g' = strip_groups g.
+Proof.
+  intros Hpr Hpe.
+  destruct (pratt_machine _ _ Hpr) as (its & st & T1 & Hits & Hr & Hi & Hsg).
+  destruct (items_wrap_group pre e post its Hits)
+    as (A' & Ee & E1 & E1' & B & B' & j & c & k2 & c1 & c2 & HEe & -> & Hits' & Hu1 & Hu1' & HuB).
+  destruct (pratt_machine _ _ Hpe) as (Ee0 & ste & Te1 & HEe0 & Hre & Hie & _).
+  rewrite HEe in HEe0. injection HEe0 as <-.
+  unfold spine_insert in Hie. rewrite Hre in Hie. destruct ste as [fse [te|]]; [|discriminate Hie].
+  destruct (existsb is_fgroup fse) eqn:Hng; [discriminate Hie|].
+  destruct (parens_group_machine A' Ee E1 E1' B B' j c j k2 c1 c2 fse te st T1 Hu1 Hu1' HuB Hre Hng Hr Hi)
+    as (T1' & Hi' & Hsg').
+  destruct (machine_parse_tree _ _ _ Hits' Hi') as (g' & Hg' & Hs').
+  exists (rg false T), g'. split; [apply parse_tree_pratt; exact Hpr|]. split; [exact Hg'|].
+  rewrite Hs', Hsg', Hsg. reflexivity.
+Qed.
